@@ -321,8 +321,9 @@ def pool_calls(facts):
     return out
 
 
-def pool_inventory(ctx, report, rule, facts, config):
-    """The only places where work crosses to the pool are the audited ones."""
+def pool_inventory(ctx, report, rule, facts, config, crossing_only=False):
+    """The only places where work crosses to the pool are the audited ones.  crossing_only: ignore
+    pool *configuration* calls (ThreadPoolBuilder), which are C11's business."""
     expected = {
         (A.SD + "::dispatch_par", "install"): 1,
         (A.STAGE + "::execute", "par_iter_mut"): 1,
@@ -336,9 +337,13 @@ def pool_inventory(ctx, report, rule, facts, config):
     got = {}
     sites = {}
     for b, bb, c in pool_calls(facts):
+        if crossing_only and "ThreadPoolBuilder" in c.path:
+            continue
         k = (b.qname, c.name)
         got[k] = got.get(k, 0) + 1
         sites.setdefault(k, b.loc(bb))
+    if crossing_only:
+        expected = dict((k, v) for k, v in expected.items() if not k[0].endswith("create_thread_pool"))
     for k in sorted(set(expected) | set(got)):
         e = expected.get(k, 0)
         g = got.get(k, 0)
@@ -347,7 +352,7 @@ def pool_inventory(ctx, report, rule, facts, config):
         report.ob(rule, "rayon/%s/%s" % k, e == g,
                   "%d call(s) of rayon `%s` in %s (audited: %d)" % (g, k[1], k[0], e), site=sites.get(k), config=config)
     if ctx.parallel(config):
-        report.floor(rule, "rayon call sites", sum(got.values()), 9, config=config)
+        report.floor(rule, "rayon call sites", sum(got.values()), 7 if crossing_only else 9, config=config)
     else:
         report.ob(rule, "rayon/none-without-parallel", not got, "no rayon call without the `parallel` feature", config=config)
 
